@@ -35,6 +35,10 @@ def _num(draw, lo=1, hi=9999):
 def _strategy(draw):
     ntypes = draw(st.integers(3, 6))
     types = TYPES[:ntypes]
+    if draw(st.integers(0, 5)) == 0:
+        # numeric type names, as some converters emit them: a name may then read like a function type or a
+        # multiplicity on the same table line
+        types = [str(i + 1) for i in range(min(3, ntypes))] + TYPES[3:ntypes]
     opls = draw(st.integers(0, 4)) == 0
     # with bond types (OPLS style) a bond-type name may coincide with the name of another atom type
     bpool = ["BA", "BB", "BC"] + (types[:2] if opls and draw(st.booleans()) else [])
